@@ -1941,8 +1941,17 @@ def c19_oracle(script, rec):
             ref = (nt, (o, tab, prec, dfmt))
         elif nt != ref[0]:
             d = first_diff(ref[0], nt)
-            bad.append("options/tab/prec/deffmt %s vs %s: token sequences differ at token #%d (%s vs %s)" % (
-                ref[1], (o, tab, prec, dfmt), d[0], d[1], d[2]))
+            cls = ""
+            if "E" in (d[1], d[2]) and (o & 32):
+                # a %g rendering that rounds above DBL_MAX is not a literal the documentation accepts (finding F1b of C01)
+                for mm in re.finditer(rb"[-+]?[0-9]+(?:\.[0-9]*)?[eE][-+]?[0-9]+", text):
+                    try:
+                        if float(mm.group(0)) in (float("inf"), float("-inf")):
+                            cls = " [class F1b: the %g rendering rounds above DBL_MAX]"
+                    except ValueError:
+                        pass
+            bad.append("options/tab/prec/deffmt %s vs %s: token sequences differ at token #%d (%s vs %s)%s" % (
+                ref[1], (o, tab, prec, dfmt), d[0], d[1], d[2], cls))
             break
         iv = indent_violations(text, tab)
         if iv:
